@@ -70,6 +70,16 @@ var transTargets = []transTarget{
 	{"TransRank", "query", "peerRanking", "Punish", "peerRanking_Punish"},
 	{"TransRank", "query", "peerRanking", "Reward", "peerRanking_Reward"},
 	{"TransRank", "query", "peerRanking", "ResetRanking", "peerRanking_ResetRanking"},
+	{"TransQueue", "query", "workQueue", "Less", "workQueue_Less"},
+	{"TransQueue", "query", "queryJob", "Index", "queryJob_Index"},
+	{"TransRescan", "", "blockRetryQueue", "push", "blockRetryQueue_push"},
+	{"TransRescan", "", "blockRetryQueue", "peek", "blockRetryQueue_peek"},
+	{"TransRescan", "", "blockRetryQueue", "pop", "blockRetryQueue_pop"},
+	{"TransRescan", "", "blockRetryQueue", "clear", "blockRetryQueue_clear"},
+	{"TransNtfn", "", "blockManager", "NotificationsSinceHeight", "NotificationsSinceHeight"},
+	{"TransBan", "", "ChainService", "IsBanned", "IsBanned"},
+	{"TransSync", "", "blockManager", "IsFullySynced", "IsFullySynced"},
+	{"TransFile", "headerfs", "HeaderType", "Size", "HeaderType_Size"},
 }
 
 // external packages whose struct types / constants the translator looks into
@@ -897,6 +907,19 @@ func (t *tfunc) prepass() {
 		case *ast.CallExpr:
 			kind, key, recvArg, tg := t.callee(v)
 			switch kind {
+			case ckBuiltin:
+				// `append(xs, v)` where xs holds interface values (atoms) and v is a data value: the implicit
+				// conversion to the interface is one more unconstrained function (data value → atom)
+				if key == "append" && !v.Ellipsis.IsValid() {
+					if st, ok := typeOf(t.pi, v).Underlying().(*types.Slice); ok && t.g.leanType(st.Elem()) == "GoInt.Atom" {
+						for _, a := range v.Args[1:] {
+							if at := t.g.leanType(typeOf(t.pi, a)); at != "GoInt.Atom" && !isNilIdent(info, a) {
+								k := ifaceKey(at)
+								items[k] = item{k, paren(at) + " → GoInt.Atom", true}
+							}
+						}
+					}
+				}
 			case ckClosure:
 				for _, a := range v.Args {
 					ast.Inspect(a, walk)
@@ -1064,6 +1087,9 @@ func (t *tfunc) prepass() {
 		t.retType = tupleType(ts)
 	}
 }
+
+// ifaceKey: key of the opaque parameter standing for "data value of Lean type at, converted to an interface"
+func ifaceKey(at string) string { return "interface value of (" + at + ")" }
 
 // withState appends the current values of the written receiver state to a result value
 func (t *tfunc) withState(vals []string) string {
